@@ -68,6 +68,19 @@ def r17_1(ctx, rep):
                 why = "set values %s / %s" % (norm(kinds["v"]), norm(kinds["-v"]))
             rep.ob(R, site, "loop over %s: %s" % (norm(loop.iter), attr), ok,
                    "v and toggle_sign(v) must be updated together (map: same canonical, negated sign; sets: the class and the inverted class); %s" % why)
+    # the re-pointing loops must run over the whole merged class, not over a part of it: copy() gives every
+    # member its own set object, so members that are skipped keep a stale, un-merged set
+    merged_var = None
+    for s_ in walk_local(fn):
+        if isinstance(s_, ast.AugAssign) and isinstance(s_.op, ast.BitOr) and isinstance(s_.target, ast.Name) and "toggle_sign" not in norm(s_.value) \
+                and (norm(s_.value).startswith("self.aliases(") or isinstance(s_.value, ast.Name)):
+            merged_var = s_.target.id
+    for loop in walk_local(fn):
+        if isinstance(loop, ast.For) and any(isinstance(st, ast.Assign) and isinstance(st.targets[0], ast.Subscript)
+                                             and norm(st.targets[0].value).startswith("self._") for st in loop.body):
+            rep.ob(R, site, "loop domain of `for %s in %s`" % (norm(loop.target), norm(loop.iter)), merged_var is not None and is_name(loop.iter, merged_var),
+                   "the loop that points members at the merged sets must iterate over the whole merged class `%s`; iterating `%s` leaves "
+                   "members with their old set (visible once sets are no longer shared, e.g. after copy())" % (merged_var, norm(loop.iter)))
     # both sets merged
     merges = [norm(s) for s in walk_local(fn) if isinstance(s, ast.AugAssign) and isinstance(s.op, ast.BitOr)]
     plain = [m for m in merges if "toggle_sign" not in m]
@@ -263,3 +276,15 @@ def _m6(mod):
         return False
 
     return mod if replace_in_func(mod, "AliasRelation.__iter__", edit) else None
+
+
+@SPEC.mutant("only the joining members are re-pointed", AR, "R17.1", "loop domain")
+def _m7(mod):
+    def edit(fn):
+        for n in ast.walk(fn):
+            if isinstance(n, ast.For) and is_name(n.iter, "aliases") and any("self._aliases[" in norm(st) for st in n.body):
+                n.iter = ast.parse("self.aliases(b) | {a}", mode="eval").body
+                return True
+        return False
+
+    return mod if replace_in_func(mod, "AliasRelation.add", edit) else None
